@@ -293,19 +293,31 @@ def fitsSqlite : Val → Bool
 
 abbrev isSql : Cls → Bool := Proofs.C08.isSql
 
+/-- the one sanctioned refusal: the SQL script has no way to write a string that holds a NUL
+    character (its encoder `_reject_nul` raises, the run fails with "Cannot write row") -/
+def sqlScriptOk : Cls → Val → Bool
+  | .sqlText, .str s => !hasNul s
+  | _, _ => true
+
 /-- **`encoders_total`.**  For every stream class and every value of the universe
     {str, int, float, bool, None, date, datetime, Decimal, row/reference, simplifiable object}
-    `cleanup` finds an encoder and the encoder applies. -/
-theorem encoders_total (c : Cls) (v : Val) (hv : InUniverse v) : ∃ x, cleanup c v = .ok x := by
+    `cleanup` finds an encoder and the encoder applies — the SQL script excepted for strings holding
+    a NUL character, which it refuses with an error (`cell_str`). -/
+theorem encoders_total (c : Cls) (v : Val) (hv : InUniverse v) (hn : sqlScriptOk c v = true) :
+    ∃ x, cleanup c v = .ok x := by
   cases c <;> cases v <;>
     first
     | exact ⟨_, rfl⟩
+    | (rename_i s
+       have h : hasNul s = false := by simpa [sqlScriptOk] using hn
+       exact ⟨_, by rw [Proofs.C08.cleanup_sqlText_str, h]; rfl⟩)
     | (rename_i o; cases o <;> first | exact ⟨_, rfl⟩ | exact absurd hv (by simp [InUniverse]))
 
 /-- …and the encoded value is accepted by the class's sink (for the two sqlite-backed classes:
     provided integers fit 64 bits), so every value of the universe has a cell in every artefact. -/
 theorem cells_total (c : Cls) (hc : c ≠ .base) (isId : Bool) (v : Val) (hv : InUniverse v)
-    (hs : isSql c = true → fitsSqlite v = true) : ∃ cell, encodeCell c isId v = .ok cell := by
+    (hs : isSql c = true → fitsSqlite v = true) (hn : sqlScriptOk c v = true) :
+    ∃ cell, encodeCell c isId v = .ok cell := by
   cases c <;> first | exact absurd rfl hc | skip
   all_goals
     cases v with
@@ -326,6 +338,11 @@ theorem cells_total (c : Cls) (hc : c ≠ .base) (isId : Bool) (v : Val) (hv : I
          refine ⟨if isId then .int i else .text (toString i), ?_⟩
          rw [Proofs.C08.encodeCell_ref_sql _ rfl, Proofs.C08.sink_int_sql _ rfl, h]; rfl)
     | bool b => cases b <;> exact ⟨_, rfl⟩
+    | str s =>
+      first
+      | exact ⟨_, rfl⟩
+      | (have h : hasNul s = false := by simpa [sqlScriptOk] using hn
+         exact ⟨_, by simp only [encodeCell, Proofs.C08.cleanup_sqlText_str, h]; rfl⟩)
     | _ => exact ⟨_, rfl⟩
 
 /-- **Root of D15**: an integer outside 64 bits has an encoder in the sqlite-backed classes but
@@ -338,44 +355,40 @@ theorem bigint_overflows_sqlite (c : Cls) (hc : isSql c = true) (isId : Bool) (i
 
 /-! #### The per-format encoding (what an independent decoder reads back) -/
 
-/- FULL STATEMENT (false on the pinned commit, finding D56):
-   theorem cell_str (c : Cls) (hc : c ≠ .base) (isId : Bool) (s : String) :
-     encodeCell c isId (.str s) = .ok (.text s)
-   The SQL script is produced by `iterdump()` (sqlite's `quote()`), which cuts a text value at its
-   first NUL character. -/
-
-/-- **D56 witness**: the string `"a\0b"` reads back as `"a"` from the SQL script. -/
-theorem cell_str_refuted :
-    encodeCell .sqlText false (.str (String.ofList ['a', Char.ofNat 0, 'b'])) = .ok (.text "a") := by
-  decide
-
-/-- strings without a NUL character are untouched by the dump -/
-theorem truncNul_of_no_nul (s : String) (h : Char.ofNat 0 ∉ s.toList) : truncNul s = s := by
-  unfold truncNul
-  have key : ∀ l : List Char, Char.ofNat 0 ∉ l → l.takeWhile (fun c => c != Char.ofNat 0) = l := by
-    intro l
-    induction l with
-    | nil => intro _; rfl
-    | cons a l ih =>
-      intro hl
-      have ha : (a != Char.ofNat 0) = true := by
-        simp only [bne_iff_ne, ne_eq]
-        intro e
-        exact hl (e ▸ List.mem_cons_self)
-      rw [List.takeWhile_cons, ha]
-      simp only [if_true]
-      rw [ih (fun hm => hl (List.mem_cons_of_mem _ hm))]
-  rw [key _ h, String.ofList_toList]
-
-/-- **`cell_str_partial`**: every class carries a string verbatim — in every format but the SQL script
-    for every string (control characters, separators, quotes, any length), in the SQL script for
-    every string without a NUL character. -/
-theorem cell_str_partial (c : Cls) (hc : c ≠ .base) (isId : Bool) (s : String)
-    (h : c = .sqlText → Char.ofNat 0 ∉ s.toList) :
-    encodeCell c isId (.str s) = .ok (.text s) := by
+/-- **`cell_str`** (full strength since fix e8cf4d3; refuted before it — D56): every class carries
+    every string verbatim — control characters, separators, quotes, any length — except that the SQL
+    script *refuses* a string holding a NUL character with an error (the run fails); it never
+    writes a shortened value. -/
+theorem cell_str (c : Cls) (hc : c ≠ .base) (isId : Bool) (s : String) :
+    encodeCell c isId (.str s) =
+      if c = .sqlText ∧ hasNul s = true then .error .encoderRaises else .ok (.text s) := by
   cases c <;> first | exact absurd rfl hc | rfl | skip
-  show Except.ok (Cell.text (truncNul s)) = _
-  rw [truncNul_of_no_nul s (h rfl)]
+  simp only [encodeCell, Proofs.C08.cleanup_sqlText_str, true_and]
+  cases h : hasNul s
+  · simp only [Bool.false_eq_true, if_false]
+    show Except.ok (Cell.text (truncNul s)) = _
+    rw [Proofs.C08.truncNul_of_no_nul s (Proofs.C08.not_mem_of_hasNul_false h)]
+  · rfl
+
+/-- a string without a NUL character round-trips in every format -/
+theorem cell_str_verbatim (c : Cls) (hc : c ≠ .base) (isId : Bool) (s : String) (h : hasNul s = false) :
+    encodeCell c isId (.str s) = .ok (.text s) := by
+  rw [cell_str c hc isId s, h]; simp
+
+/-- **never success with a shortened value**: whenever a string gets a cell at all, the cell is the
+    string itself. -/
+theorem cell_str_never_shortened (c : Cls) (hc : c ≠ .base) (isId : Bool) (s : String) (cell : Cell)
+    (h : encodeCell c isId (.str s) = .ok cell) : cell = .text s := by
+  rw [cell_str c hc isId s] at h
+  split at h
+  · cases h
+  · cases h; rfl
+
+/-- why the encoder has to refuse: the dump itself (`iterdump()` / sqlite `quote()`) would cut
+    `"a\0b"` down to `"a"` (the behaviour of the whole stream before the fix, D56). -/
+theorem sql_dump_would_truncate :
+    sink .sqlText false (.str (String.ofList ['a', Char.ofNat 0, 'b'])) = .ok (.text "a") := by
+  decide
 
 theorem cell_bool (c : Cls) (hc : c ≠ .base) (b : Bool) :
     encodeCell c false (.bool b) =
@@ -396,7 +409,7 @@ theorem cell_none (c : Cls) (hc : c ≠ .base) :
 theorem none_vs_empty (c : Cls) (hc : c ≠ .base) :
     (encodeCell c false .none = encodeCell c false (.str "")) ↔ c = .csv := by
   cases c <;> first | exact absurd rfl hc | skip
-  all_goals simp [cell_none, cell_str_partial]
+  all_goals simp [cell_none, cell_str, hasNul]
 
 theorem cell_date (c : Cls) (hc : c ≠ .base) (iso : String) :
     encodeCell c false (.date iso) = .ok (.text iso) := by
@@ -413,12 +426,13 @@ theorem cell_datetime (c : Cls) (hc : c ≠ .base) (tsec sp : String) :
   cases c <;> first | exact absurd rfl hc | rfl
 
 /-- (`s` = `str(decimal)`, which never contains a NUL character; the hypothesis is needed only
-    because the SQL script renders the encoded string through `quote()`, see `cell_str_refuted`) -/
+    because the SQL script renders the encoded string through `quote()`, see `sql_dump_would_truncate`;
+    `Decimal` has its own dict key, so its rendering does not pass `_reject_nul`) -/
 theorem cell_decimal (c : Cls) (hc : c ≠ .base) (s : String) (h : Char.ofNat 0 ∉ s.toList) :
     encodeCell c false (.decimal s) = .ok (.text s) := by
   cases c <;> first | exact absurd rfl hc | rfl | skip
   show Except.ok (Cell.text (truncNul s)) = _
-  rw [truncNul_of_no_nul s h]
+  rw [Proofs.C08.truncNul_of_no_nul s h]
 
 /-- references are written as the id of the target row (the debug text shows `Table(id)`) -/
 theorem cell_ref (c : Cls) (hc : c ≠ .base) (t : String) (i : Int) (hi : int64 i = true) :
